@@ -52,8 +52,13 @@ var outParams = map[string]OutParam{
 
 // lookupOutParam: the table above, plus the schema decoder `X.Decoder().Decode(target, form)`, which writes
 // the decoded form through its first argument.
+func outParamsHas(callee string) bool { _, ok := outParams[callee]; return ok }
+
 func (t *tr) lookupOutParam(callee string) (OutParam, bool) {
 	if op, ok := t.spec.OutParams[callee]; ok {
+		return op, true
+	}
+	if op, ok := t.spec.LocalOut[callee]; ok {
 		return op, true
 	}
 	if op, ok := outParams[callee]; ok {
@@ -113,6 +118,23 @@ type FuncSpec struct {
 	InitResults bool
 	ZeroOf      map[string]string
 	HardErr     map[string]string
+	// ---- imperative / codec style (all default-off: the output for specs that do not set them is unchanged)
+	// Imperative: `*p = e` -> `let p := e`; `m[k] = v` -> `let m := GoX.mapSet m k v`; `x[:n]`, `x[n:]` -> GoX.sliceTo/sliceFrom;
+	// `make(T, 0, n)` / `make(map[K]V)` -> the empty value, `make([]byte, n)` -> GoX.zeros n; `a << b` -> GoX.shl;
+	// `errors.As(err, &v)` with `var v T` -> GoX.errorsAs err "T"; `err := f(); if err == nil {..}`; `x := new(T)` via Rename["new(T)"];
+	// `x := make([]T, len(xs)); for i, p := range xs { ..; x[i] = e }` with early returns -> GoX.collect;
+	// `if _, err = f(..); err != nil`; LoopStyle "state": range loops that assign to variables of the enclosing function -> GoX.foldList / GoX.foldKV
+	// (state threaded through the loop) and loops that only return early -> GoX.first.
+	Imperative  bool
+	LocalOut    map[string]OutParam // spec-local out-parameter table (callee text -> position), consulted before outParams
+	AlwaysOut   map[string]bool     // callees of LocalOut that write their out-parameter on the error path too: Lean twin returns (new value, Go.R Unit)
+	TypeCases   map[string]string   // `switch v := x.(type)`: Go case type (source text, "nil" for nil) -> Lean constructor (the payload is bound to v)
+	TypeAsserts map[string]string   // `v, ok := x.(T)`: Go type (source text) -> Lean function returning (payload, Bool)
+	RenameFirst bool                // Rename["T()"] takes precedence over the built-in identity conversions T(x)
+	ErrValues   bool                // `x, err := f()` without a following error check binds err as a value; `err == nil` -> GoX.errIsNil err
+	// SliceAlias: `v := x[:n]` makes v a window onto x: a call that writes through v (LocalOut) also writes x (`let x := GoX.setSliceTo x n v`),
+	// and an out-parameter argument `x[n:]` is written back with GoX.setSliceFrom.
+	SliceAlias bool
 }
 
 // StructLit: `&pkg.T{K: V, ...}` becomes `({ K := V, ... } : Lean)`, restricted to the fields in Keep.
@@ -148,17 +170,21 @@ type tr struct {
 	fset        *token.FileSet
 	unsup       []string
 	indent      int
-	errInScope  bool            // inside a `.error err =>` branch
-	fresh       map[string]bool // slice variables known to own their backing array (make / literal)
-	inClosure   bool            // RetHandler: inside the returned handler closure
-	declared    map[string]bool // variables declared in the function (closure) being translated: `=` to anything else is shared state
-	pendingPost string          // write-back of a field out-parameter (see okPattern)
-	loopDepth   int             // inside the body of a generically translated range loop (returns become `some …`)
-	loop        int             // > 0: inside the body of a Go.forFirst loop (returns are wrapped in `some`)
-	rt          string          // Lean result type of the function being translated
-	breakK      []cont          // (translate_ext.go) continuations of the enclosing switch statements: where `break` goes
-	funcVals    map[string]bool // (translate_ext.go) local variables holding a method / function value
-	results     []string        // (translate_ext.go) names of the named results (InitResults)
+	errInScope  bool                 // inside a `.error err =>` branch
+	fresh       map[string]bool      // slice variables known to own their backing array (make / literal)
+	inClosure   bool                 // RetHandler: inside the returned handler closure
+	declared    map[string]bool      // variables declared in the function (closure) being translated: `=` to anything else is shared state
+	pendingPost string               // write-back of a field out-parameter (see okPattern)
+	loopDepth   int                  // inside the body of a generically translated range loop (returns become `some …`)
+	loop        int                  // > 0: inside the body of a Go.forFirst loop (returns are wrapped in `some`)
+	rt          string               // Lean result type of the function being translated
+	breakK      []cont               // (translate_ext.go) continuations of the enclosing switch statements: where `break` goes
+	funcVals    map[string]bool      // (translate_ext.go) local variables holding a method / function value
+	results     []string             // (translate_ext.go) names of the named results (InitResults)
+	collect     int                  // > 0: inside the body of a GoX.collect loop (returns are wrapped in `.inl`)
+	varTypes    map[string]string    // `var v T` declarations (Imperative): v -> source text of T
+	aliases     map[string][2]string // SliceAlias: v -> (x, n) for `v := x[:n]`
+	errResult   bool                 // Imperative: `err` currently holds the (unchecked) result of a call, as a value of type Go.R Unit
 }
 
 func (t *tr) declareFields(fl *ast.FieldList) {
@@ -451,6 +477,15 @@ func (t *tr) expr(e ast.Expr) string {
 		return t.expr(x.X)
 	case *ast.BinaryExpr:
 		a, b := t.expr(x.X), t.expr(x.Y)
+		if bi, ok := x.Y.(*ast.Ident); ok && bi.Name == "nil" && t.spec.ErrValues && exprString(x.X) == "err" {
+			// err is a first-class value here (Option String)
+			if x.Op == token.NEQ {
+				return "(GoX.errNotNil " + a + ")"
+			}
+			if x.Op == token.EQL {
+				return "(GoX.errIsNil " + a + ")"
+			}
+		}
 		// comparisons with nil
 		if bi, ok := x.Y.(*ast.Ident); ok && bi.Name == "nil" {
 			if x.Op == token.NEQ {
@@ -483,6 +518,10 @@ func (t *tr) expr(e ast.Expr) string {
 			return "(" + a + " - " + b + ")"
 		case token.MUL:
 			return "(" + a + " * " + b + ")"
+		case token.SHL:
+			if t.spec.Imperative {
+				return "(GoX.shl " + a + " " + b + ")"
+			}
 		}
 		return t.bad("binary "+x.Op.String(), x)
 	case *ast.CompositeLit:
@@ -613,6 +652,16 @@ func (t *tr) expr(e ast.Expr) string {
 		return t.bad("index", x)
 	case *ast.CallExpr:
 		return t.call(x)
+	case *ast.SliceExpr:
+		if t.spec.Imperative && !x.Slice3 {
+			switch {
+			case x.Low == nil && x.High != nil:
+				return "(GoX.sliceTo " + t.expr(x.X) + " " + t.expr(x.High) + ")"
+			case x.Low != nil && x.High == nil:
+				return "(GoX.sliceFrom " + t.expr(x.X) + " " + t.expr(x.Low) + ")"
+			}
+		}
+		return t.bad("slice expression", x)
 	}
 	return t.bad(fmt.Sprintf("expr %T", e), e)
 }
@@ -639,7 +688,16 @@ func (t *tr) okPattern(call ast.Expr, v string) string {
 	name := strings.TrimPrefix(exprString(c.Args[op.Index]), "&")
 	if strings.Contains(name, ".") {
 		// the out-parameter is a field (`r.Data`): bind a fresh name, write it back before the continuation
-		name, t.pendingPost = t.bindTarget(c.Args[op.Index])
+		target := c.Args[op.Index]
+		if u, isAddr := target.(*ast.UnaryExpr); isAddr && u.Op == token.AND && t.spec.Imperative {
+			target = u.X // &x.F
+		}
+		name, t.pendingPost = t.bindTarget(target)
+	}
+	if al, ok := t.aliases[name]; ok && t.spec.SliceAlias {
+		// name is a window onto al[0]: what the callee wrote through it is in al[0] as well
+		x := t.ident(al[0])
+		t.pendingPost += "let " + x + " := (GoX.setSliceTo " + x + " " + al[1] + " " + t.ident(name) + ");\n" + t.pad()
 	}
 	if v == "_" || v == "" {
 		return name
@@ -711,6 +769,39 @@ func (t *tr) call(c *ast.CallExpr) string {
 			out = "(Go.append " + out + " " + t.expr(a) + ")"
 		}
 		return out
+	}
+	if t.spec.RenameFirst {
+		if r, ok := t.spec.Rename[full+"()"]; ok {
+			if a := t.args(c.Args); a != "" {
+				return "(" + r + " " + a + ")"
+			}
+			return r
+		}
+	}
+	if t.spec.Imperative && full == "errors.As" && len(c.Args) == 2 {
+		// errors.As(e, &v) with `var v T`: does the chain of e contain an error of type T?
+		if u, ok := c.Args[1].(*ast.UnaryExpr); ok && u.Op == token.AND {
+			if ty, ok := t.varTypes[exprString(u.X)]; ok {
+				if t.errResult && exprString(c.Args[0]) == "err" {
+					return "(GoX.errorsAsR err " + leanStr(ty) + ")" // errors.As(nil, ..) is false
+				}
+				return "(GoX.errorsAs " + t.expr(c.Args[0]) + " " + leanStr(ty) + ")"
+			}
+		}
+		return t.bad("errors.As target of unknown type", c)
+	}
+	if t.spec.Imperative && full == "make" && len(c.Args) >= 1 {
+		_, isMap := c.Args[0].(*ast.MapType)
+		_, isNamed := c.Args[0].(*ast.Ident)
+		at, isSlice := c.Args[0].(*ast.ArrayType)
+		zeroLen := len(c.Args) >= 2 && exprString(c.Args[1]) == "<*ast.BasicLit>" && c.Args[1].(*ast.BasicLit).Value == "0"
+		switch {
+		case isMap && len(c.Args) == 1, (isNamed || isSlice) && zeroLen:
+			return "([] : List _)" // the empty map / slice (capacity carries no meaning)
+		case isSlice && len(c.Args) == 2 && exprString(at.Elt) == "byte":
+			return "(GoX.zeros " + t.expr(c.Args[1]) + ")" // zero bytes
+		}
+		return t.bad("make", c)
 	}
 	switch full {
 	case "time.Now":
@@ -943,6 +1034,9 @@ func (t *tr) zeroBind(body ast.Node, v string) string {
 }
 
 func (t *tr) ret(r *ast.ReturnStmt) string {
+	if t.collect > 0 {
+		return "(.inl " + t.ret0(r) + ")" // leaving the function from inside a GoX.collect loop
+	}
 	if t.loopDepth > 0 {
 		return "(some " + t.ret0(r) + ")"
 	}
@@ -997,6 +1091,13 @@ func (t *tr) ret0(r *ast.ReturnStmt) string {
 	case RetErr:
 		if len(r.Results) != 1 {
 			return t.bad("return arity", r)
+		}
+		if id, ok := r.Results[0].(*ast.Ident); ok && id.Name == "err" && t.errResult && !t.errInScope {
+			// `return err` where err is the unchecked result of a call: nil is success
+			if t.spec.RetParam != "" {
+				return "(GoX.retErr err " + t.spec.RetParam + ")"
+			}
+			return "err"
 		}
 		if id, ok := r.Results[0].(*ast.Ident); ok && id.Name == "nil" {
 			if t.spec.RetParam != "" {
@@ -1224,6 +1325,9 @@ func (t *tr) block(stmts []ast.Stmt, k cont) string {
 				}
 				for _, n := range vs.Names {
 					t.declared[n.Name] = true
+					if t.spec.Imperative && vs.Type != nil {
+						t.varTypes[n.Name] = goSrc(t.fset, vs.Type)
+					}
 				}
 				if len(vs.Values) != 0 || vs.Type == nil {
 					continue
@@ -1263,7 +1367,12 @@ func (t *tr) block(stmts []ast.Stmt, k cont) string {
 				return rest()
 			}
 			// f(v, ...) where f writes through its pointer argument v:  let v := f v ...
-			if op, ok := outParams[exprString(c.Fun)]; ok && op.Keep && op.Index < len(c.Args) {
+			if op, ok := t.lookupOutParam(exprString(c.Fun)); ok && op.Keep && op.Index < len(c.Args) && (outParamsHas(exprString(c.Fun)) || t.spec.LocalOut != nil) {
+				if se, isSlice := c.Args[op.Index].(*ast.SliceExpr); isSlice && t.spec.SliceAlias && se.High == nil && se.Low != nil && !se.Slice3 {
+					// f(x[n:], ..) writes into the tail of x
+					base := t.expr(se.X)
+					return "let " + base + " := (GoX.setSliceFrom " + base + " " + t.expr(se.Low) + " " + t.expr(c) + ");\n" + t.pad() + rest()
+				}
 				name := strings.TrimPrefix(exprString(c.Args[op.Index]), "&")
 				return "let " + t.ident(name) + " := " + t.expr(c) + ";\n" + t.pad() + rest()
 			}
@@ -1309,6 +1418,21 @@ func (t *tr) block(stmts []ast.Stmt, k cont) string {
 		}
 		return t.bad("expression statement", x)
 	case *ast.AssignStmt:
+		if t.spec.Imperative {
+			if out, ok := t.imperativeAssign(x, stmts, k, rest); ok {
+				return out
+			}
+			// *p = e  is  p = e  on the value the pointer parameter stands for
+			if len(x.Lhs) == 1 {
+				if st, ok := x.Lhs[0].(*ast.StarExpr); ok {
+					if id, ok := st.X.(*ast.Ident); ok {
+						y := *x
+						y.Lhs = []ast.Expr{id}
+						x = &y
+					}
+				}
+			}
+		}
 		for _, lhs := range x.Lhs {
 			if id, ok := lhs.(*ast.Ident); ok && id.Name != "_" {
 				if x.Tok == token.DEFINE {
@@ -1480,6 +1604,10 @@ func (t *tr) block(stmts []ast.Stmt, k cont) string {
 					return "(match " + t.expr(call) + " with\n" + t.pad() + "| .ok " + t.okPattern(call, v) + " =>\n" + t.pad() + post + t.takePost() + okBranch + "\n" + t.pad() + "| .error err =>\n" + t.pad() + errBranch + ")"
 				}
 			}
+			if ok && t.spec.ErrValues {
+				// err is an ordinary value in this function: x, err := f(..)  ->  let (x, err) := f ..
+				return "let (" + t.ident(exprString(x.Lhs[0])) + ", err) := " + t.expr(call) + ";\n" + t.pad() + rest()
+			}
 			if out, ok := t.assignExt(x, stmts, k); ok {
 				return out
 			}
@@ -1549,6 +1677,9 @@ func (t *tr) block(stmts []ast.Stmt, k cont) string {
 				}
 			}
 			if c, ok := x.Rhs[0].(*ast.CallExpr); ok && exprString(c.Fun) == "new" {
+				if r, ok := t.spec.Rename[goSrc(t.fset, c)]; ok && t.spec.Imperative {
+					return "let " + t.ident(exprString(x.Lhs[0])) + " := " + r + ";\n" + t.pad() + rest() // new(T): the zero value the spec names
+				}
 				return rest() // pure allocation of an out-parameter target
 			}
 			if c, ok := x.Rhs[0].(*ast.CallExpr); ok && strings.HasSuffix(exprString(c.Fun), ".WithContext") {
@@ -1566,7 +1697,7 @@ func (t *tr) block(stmts []ast.Stmt, k cont) string {
 				}
 				return t.bad("assignment to a nested field", x)
 			}
-			if c, ok := x.Rhs[0].(*ast.CallExpr); ok && exprString(c.Fun) == "make" {
+			if c, ok := x.Rhs[0].(*ast.CallExpr); ok && exprString(c.Fun) == "make" && !t.spec.Imperative {
 				// make([]T, 0) / make([]T, 0, n): the empty slice; any other length would need its elements
 				if _, isSlice := c.Args[0].(*ast.ArrayType); isSlice && len(c.Args) >= 2 {
 					if lit, isLit := c.Args[1].(*ast.BasicLit); isLit && lit.Value == "0" {
@@ -1600,6 +1731,12 @@ func (t *tr) block(stmts []ast.Stmt, k cont) string {
 		// if err := f(...); err != nil { body }
 		if x.Init != nil {
 			as, ok := x.Init.(*ast.AssignStmt)
+			if ok && t.spec.Imperative && len(as.Lhs) == 2 && len(as.Rhs) == 1 && exprString(as.Lhs[0]) == "_" && exprString(as.Lhs[1]) == "err" {
+				// if _, err = f(..); err != nil   reads as   if err = f(..); err != nil   (the count is dropped; the callee's twin returns Go.R of its out-parameter)
+				y := *as
+				y.Lhs = []ast.Expr{as.Lhs[1]}
+				as = &y
+			}
 			// if v, ok := e.(T); COND { .. }  ->  the two lets of a type assertion, then the plain `if`
 			if ok && len(as.Lhs) == 2 && len(as.Rhs) == 1 {
 				okOnly := x.Else == nil && exprString(x.Cond) == exprString(as.Lhs[1]) // `; ok {` has its own rule below
@@ -1724,7 +1861,19 @@ func (t *tr) block(stmts []ast.Stmt, k cont) string {
 			return t.block(append([]ast.Stmt{as, &y}, stmts[1:]...), k)
 		}
 		return t.switchStmt(x, rest)
+	case *ast.TypeSwitchStmt:
+		if t.spec.TypeCases == nil {
+			// without a TypeCases table the flag-based rule of translate_ext.go applies (`(x).is_T`)
+			if out, ok := t.stmtExt(s, stmts, k); ok {
+				return out
+			}
+			return t.bad("type switch", x)
+		}
+		return t.typeSwitchCases(x, rest)
 	case *ast.RangeStmt:
+		if t.spec.LoopStyle == "state" {
+			return t.stateLoop(x, rest)
+		}
 		// for _, v := range L { if COND(v) { return V } }   ->   if L.any (fun v => COND) then V else rest
 		if len(x.Body.List) == 1 && x.Value != nil {
 			if ifs, ok := x.Body.List[0].(*ast.IfStmt); ok && ifs.Init == nil && ifs.Else == nil && len(ifs.Body.List) == 1 {
@@ -1955,7 +2104,8 @@ func translateFunc(fset *token.FileSet, fd *ast.FuncDecl, spec *FuncSpec) (strin
 			}
 		}
 	}
-	t := &tr{spec: spec, fset: fset, indent: 1, fresh: map[string]bool{}, declared: map[string]bool{}, rt: "(" + rt + ")"}
+	t := &tr{spec: spec, fset: fset, indent: 1, fresh: map[string]bool{}, declared: map[string]bool{}, rt: "(" + rt + ")",
+		varTypes: map[string]string{}, aliases: map[string][2]string{}}
 	t.funcVals = map[string]bool{}
 	t.declareFields(fd.Recv)
 	t.declareFields(fd.Type.Params)
@@ -1977,4 +2127,340 @@ func translateFunc(fset *token.FileSet, fd *ast.FuncDecl, spec *FuncSpec) (strin
 	fmt.Fprintf(&b, "def %s (now : Int) %s : %s :=\n  %s\n", spec.Lean, strings.Join(spec.Params, " "), rt, body)
 	sort.Strings(t.unsup)
 	return b.String(), t.unsup
+}
+
+// ---------------------------------------------------------------- imperative / codec style (FuncSpec.Imperative, TypeCases, LoopStyle "state")
+
+func hasReturn(n ast.Node) bool {
+	found := false
+	ast.Inspect(n, func(m ast.Node) bool {
+		switch m.(type) {
+		case *ast.FuncLit:
+			return false
+		case *ast.ReturnStmt:
+			found = true
+		}
+		return !found
+	})
+	return found
+}
+
+// imperativeAssign: the assignment forms of the imperative style (see FuncSpec.Imperative)
+func (t *tr) imperativeAssign(x *ast.AssignStmt, stmts []ast.Stmt, k cont, rest cont) (string, bool) {
+	// v, ok := e.(T)   ->   let (v, ok) := (F e)
+	if len(x.Lhs) == 2 && len(x.Rhs) == 1 && t.spec.TypeAsserts != nil {
+		if ta, ok := x.Rhs[0].(*ast.TypeAssertExpr); ok && ta.Type != nil {
+			f, known := t.spec.TypeAsserts[goSrc(t.fset, ta.Type)]
+			if !known {
+				return t.bad("type assertion to "+goSrc(t.fset, ta.Type), x), true
+			}
+			v, okv := exprString(x.Lhs[0]), exprString(x.Lhs[1])
+			t.declared[v], t.declared[okv] = true, true
+			return "let (" + t.ident(v) + ", " + t.ident(okv) + ") := (" + f + " " + t.expr(ta.X) + ");\n" + t.pad() + rest(), true
+		}
+	}
+	// err := f(..)   followed by   if err == nil { body }   (the success branch is the guarded one; what follows runs with err != nil)
+	if len(x.Lhs) == 1 && len(x.Rhs) == 1 && exprString(x.Lhs[0]) == "err" && len(stmts) > 1 {
+		if ifs, ok := stmts[1].(*ast.IfStmt); ok && ifs.Init == nil && ifs.Else == nil && isErrIsNil(ifs.Cond) {
+			call := x.Rhs[0]
+			t.declared["err"] = true
+			always := false
+			if c, isCall := call.(*ast.CallExpr); isCall {
+				always = t.spec.AlwaysOut[exprString(c.Fun)]
+			}
+			okPat := t.okPattern(call, "_")
+			post := t.takePost()
+			t.indent++
+			saved := t.errInScope
+			t.errInScope = false
+			okTail := memo(func() string { return t.block(stmts[2:], k) })
+			okB := t.block(ifs.Body.List, okTail)
+			t.errInScope = true
+			errB := t.block(stmts[2:], k)
+			t.errInScope = saved
+			t.indent--
+			if always {
+				// the callee writes its out-parameter on both paths: its twin returns (new value, Go.R Unit)
+				return "(match " + t.expr(call) + " with\n" + t.pad() + "| (" + okPat + ", .ok _) =>\n" + t.pad() + "  " + post + okB + "\n" + t.pad() +
+					"| (" + okPat + ", .error err) =>\n" + t.pad() + "  " + post + errB + ")", true
+			}
+			return "(match " + t.expr(call) + " with\n" + t.pad() + "| " + t.wpat(call, ".ok "+okPat) + " =>\n" + t.pad() + "  " + post + okB + "\n" + t.pad() +
+				"| " + t.wpat(call, ".error err") + " =>\n" + t.pad() + "  " + errB + ")", true
+		}
+	}
+	// err := f(.., &x)  that is NOT followed by a nil check, f writing x on both paths: the result travels on as a value
+	if len(x.Lhs) == 1 && len(x.Rhs) == 1 && exprString(x.Lhs[0]) == "err" {
+		if c, isCall := x.Rhs[0].(*ast.CallExpr); isCall && t.spec.AlwaysOut[exprString(c.Fun)] {
+			t.declared["err"] = true
+			okPat := t.okPattern(c, "_")
+			post := t.takePost()
+			t.errResult = true
+			return "let (" + okPat + ", err) := " + t.expr(c) + ";\n" + t.pad() + post + rest(), true
+		}
+	}
+	// x := make([]T, len(xs)); for i, p := range xs { STMTS; x[i] = e }   (STMTS may return)  ->  GoX.collect
+	if len(x.Lhs) == 1 && len(x.Rhs) == 1 && len(stmts) > 1 {
+		if _, _, _, plain := t.convertLoop(x, stmts[1]); !plain {
+			if out, ok := t.collectLoop(x, stmts[1], func() string { return t.block(stmts[2:], k) }); ok {
+				return out, true
+			}
+		}
+	}
+	// m[k] = v
+	if len(x.Lhs) == 1 && len(x.Rhs) == 1 && x.Tok == token.ASSIGN {
+		if ix, ok := x.Lhs[0].(*ast.IndexExpr); ok {
+			if id, ok := ix.X.(*ast.Ident); ok {
+				m := t.ident(id.Name)
+				return "let " + m + " := (GoX.mapSet " + m + " " + t.expr(ix.Index) + " " + t.expr(x.Rhs[0]) + ");\n" + t.pad() + rest(), true
+			}
+		}
+	}
+	// v := x[:n]  under SliceAlias: remember that v is a window onto x
+	if t.spec.SliceAlias && len(x.Lhs) == 1 && len(x.Rhs) == 1 && x.Tok == token.DEFINE {
+		if se, ok := x.Rhs[0].(*ast.SliceExpr); ok && se.Low == nil && se.High != nil && !se.Slice3 {
+			if base, ok := se.X.(*ast.Ident); ok {
+				t.aliases[exprString(x.Lhs[0])] = [2]string{base.Name, t.expr(se.High)}
+			}
+		}
+	}
+	return "", false
+}
+
+// collectLoop: x := make([]T, len(xs)); for i, p := range xs { STMTS; x[i] = e }
+func (t *tr) collectLoop(as *ast.AssignStmt, next ast.Stmt, rest cont) (string, bool) {
+	mk, isCall := as.Rhs[0].(*ast.CallExpr)
+	if !isCall || exprString(mk.Fun) != "make" || len(mk.Args) != 2 {
+		return "", false
+	}
+	ln, isLen := mk.Args[1].(*ast.CallExpr)
+	if !isLen || exprString(ln.Fun) != "len" || len(ln.Args) != 1 {
+		return "", false
+	}
+	rg, isRange := next.(*ast.RangeStmt)
+	if !isRange || rg.Key == nil || rg.Value == nil || exprString(rg.X) != exprString(ln.Args[0]) || len(rg.Body.List) < 1 {
+		return "", false
+	}
+	body := rg.Body.List
+	set, isAssign := body[len(body)-1].(*ast.AssignStmt)
+	if !isAssign || len(set.Lhs) != 1 || len(set.Rhs) != 1 || set.Tok != token.ASSIGN {
+		return "", false
+	}
+	ix, isIx := set.Lhs[0].(*ast.IndexExpr)
+	if !isIx || exprString(ix.X) != exprString(as.Lhs[0]) || exprString(ix.Index) != exprString(rg.Key) {
+		return "", false
+	}
+	idx := exprString(rg.Key)
+	for _, st := range body[:len(body)-1] {
+		if usesIdent(st, idx) {
+			return t.bad("loop index used outside the element assignment", rg), true
+		}
+	}
+	if usesIdent(set.Rhs[0], idx) {
+		return t.bad("loop index used outside the element assignment", rg), true
+	}
+	name := exprString(as.Lhs[0])
+	t.declared[name] = true
+	t.fresh[name] = true
+	v := exprString(rg.Value)
+	t.collect++
+	t.indent++
+	elem := set.Rhs[0]
+	inner := t.block(body[:len(body)-1], func() string { return "(.inr " + t.expr(elem) + ")" })
+	t.indent--
+	t.collect--
+	return "(match (GoX.collect (β := " + t.rt + ") " + t.expr(rg.X) + " (fun " + v + " =>\n" + t.pad() + "  " + inner + ")) with\n" + t.pad() +
+		"| .inl r__ => r__\n" + t.pad() + "| .inr " + t.ident(name) + " =>\n" + t.pad() + rest() + ")", true
+}
+
+// typeSwitchCases (TypeCases): switch v := e.(type) { case T1: ..; case nil: ..; default: .. }  ->  match e with | C1 v => .. | Cnil => .. | _ => ..
+func (t *tr) typeSwitchCases(x *ast.TypeSwitchStmt, cont cont) string {
+	if x.Init != nil {
+		return t.bad("type switch init", x)
+	}
+	binder := ""
+	var subj ast.Expr
+	switch a := x.Assign.(type) {
+	case *ast.AssignStmt:
+		if len(a.Lhs) == 1 && len(a.Rhs) == 1 {
+			binder = exprString(a.Lhs[0])
+			if ta, ok := a.Rhs[0].(*ast.TypeAssertExpr); ok {
+				subj = ta.X
+			}
+		}
+	case *ast.ExprStmt:
+		if ta, ok := a.X.(*ast.TypeAssertExpr); ok {
+			subj = ta.X
+		}
+	}
+	if subj == nil {
+		return t.bad("type switch subject", x)
+	}
+	e := t.expr(subj)
+	if binder != "" {
+		t.declared[binder] = true
+	}
+	var out strings.Builder
+	out.WriteString("(match " + e + " with")
+	var def *ast.CaseClause
+	for _, c := range x.Body.List {
+		cc := c.(*ast.CaseClause)
+		if cc.List == nil {
+			def = cc
+			continue
+		}
+		for _, ty := range cc.List {
+			src := goSrc(t.fset, ty)
+			ctor, ok := t.spec.TypeCases[src]
+			if !ok {
+				ctor = t.bad("type switch case "+src, ty)
+			}
+			pat := ctor
+			bind := ""
+			if src != "nil" {
+				if binder != "" && len(cc.List) == 1 {
+					pat += " " + binder
+				} else {
+					pat += " _"
+					if binder != "" {
+						bind = "let " + binder + " := " + e + ";\n" + t.pad() + "  "
+					}
+				}
+			} else if binder != "" {
+				bind = "let " + binder + " := " + e + ";\n" + t.pad() + "  "
+			}
+			if !usesIdentStmts(cc.Body, binder) {
+				bind = ""
+			}
+			t.indent++
+			body := t.block(cc.Body, cont)
+			t.indent--
+			out.WriteString("\n" + t.pad() + "| " + pat + " =>\n" + t.pad() + "  " + bind + body)
+		}
+	}
+	t.indent++
+	var dflt string
+	if def != nil {
+		bind := ""
+		if binder != "" && usesIdentStmts(def.Body, binder) {
+			bind = "let " + binder + " := " + e + ";\n" + t.pad()
+		}
+		dflt = bind + t.block(def.Body, cont)
+	} else {
+		dflt = cont()
+	}
+	t.indent--
+	out.WriteString("\n" + t.pad() + "| _ =>\n" + t.pad() + "  " + dflt + ")")
+	return out.String()
+}
+
+func usesIdentStmts(stmts []ast.Stmt, name string) bool {
+	if name == "" {
+		return false
+	}
+	for _, s := range stmts {
+		if usesIdent(s, name) {
+			return true
+		}
+	}
+	return false
+}
+
+// assignedOuter: variables declared before the loop that its body assigns (x = e, *x = e, x[k] = e), in order of first assignment
+func (t *tr) assignedOuter(body *ast.BlockStmt) []string {
+	var out []string
+	seen := map[string]bool{}
+	local := map[string]bool{}
+	ast.Inspect(body, func(n ast.Node) bool {
+		as, ok := n.(*ast.AssignStmt)
+		if !ok {
+			return true
+		}
+		for _, l := range as.Lhs {
+			name := ""
+			switch y := l.(type) {
+			case *ast.Ident:
+				name = y.Name
+			case *ast.StarExpr:
+				name = exprString(y.X)
+			case *ast.IndexExpr:
+				name = exprString(y.X)
+			}
+			if name == "" || name == "_" {
+				continue
+			}
+			if as.Tok == token.DEFINE {
+				if _, isId := l.(*ast.Ident); isId {
+					local[name] = true
+					continue
+				}
+			}
+			if t.declared[name] && !local[name] && !seen[name] {
+				seen[name] = true
+				out = append(out, name)
+			}
+		}
+		return true
+	})
+	return out
+}
+
+// stateLoop (LoopStyle "state"):
+//
+//	for k, v := range X { body }   body assigns variables S of the enclosing function, no return   ->  let S := GoX.foldKV/foldList X S (fun S k v => body; S)
+//	for _, v := range X { body }   body only returns early, assigns nothing outside                ->  match GoX.first X (fun v => body-or-none) with | some r => r | none => rest
+func (t *tr) stateLoop(x *ast.RangeStmt, rest cont) string {
+	state := t.assignedOuter(x.Body)
+	returns := hasReturn(x.Body)
+	name := func(e ast.Expr) string {
+		if e == nil {
+			return "_"
+		}
+		return t.ident(exprString(e))
+	}
+	kv := x.Key != nil && exprString(x.Key) != "_" && x.Value != nil
+	binders := name(x.Value)
+	if kv {
+		binders = name(x.Key) + " " + name(x.Value)
+	} else if x.Value == nil {
+		binders = name(x.Key)
+	}
+	if x.Tok == token.DEFINE {
+		for _, e := range []ast.Expr{x.Key, x.Value} {
+			if e != nil {
+				t.declared[exprString(e)] = true
+			}
+		}
+	}
+	switch {
+	case len(state) > 0 && returns:
+		return t.bad("loop that both updates state and returns", x)
+	case len(state) > 0:
+		var ss []string
+		for _, s := range state {
+			ss = append(ss, t.ident(s))
+		}
+		st := ss[0]
+		if len(ss) > 1 {
+			st = "(" + strings.Join(ss, ", ") + ")"
+		}
+		fn := "GoX.foldList"
+		if kv {
+			fn = "GoX.foldKV"
+		}
+		t.indent++
+		body := t.block(x.Body.List, func() string { return st })
+		t.indent--
+		return "let " + st + " := (" + fn + " " + t.expr(x.X) + " " + st + " (fun " + st + " " + binders + " =>\n" + t.pad() + "  " + body + "));\n" + t.pad() + rest()
+	default:
+		if kv || x.Value == nil {
+			return t.bad("early-exit loop over keys", x)
+		}
+		t.loop++
+		t.indent++
+		body := t.block(x.Body.List, func() string { return "none" })
+		t.indent--
+		t.loop--
+		return "(match (GoX.first (β := " + t.rt + ") " + t.expr(x.X) + " (fun " + binders + " =>\n" + t.pad() + "  " + body + ")) with\n" + t.pad() +
+			"| some r__ => r__\n" + t.pad() + "| none =>\n" + t.pad() + rest() + ")"
+	}
 }
